@@ -1058,8 +1058,8 @@ def closed_form_determinants(ctx, g):
         ctx.floor("closed-form arms of %s" % name.split("::")[-2], len(arms), 3)
         bad = None
         for n, val in sorted(arms.items()):
-            if val is None or n > 3:
-                continue
+            if val is None or n > 6:
+                continue          # (an arm for size n must be the n x n determinant whatever n is: `4 => <3 x 3 formula>` is evaluated as well)
             val = fold_std_ops(val)
 
             def entry(x):
